@@ -15,7 +15,7 @@ def rand_name(rng, used):
     for _ in range(50):
         w = rng.choice(WORDS)
         if rng.random() < 0.3:
-            w = w + str(rng.choice([1, 2, 2, 3, 10])).encode()
+            w = w + str(rng.choice([1, 2, 2, 3, 10, 11, 21, 31])).encode()
         if w not in used:
             used.add(w); return w
     w = b"N%d" % len(used); used.add(w); return w
@@ -28,12 +28,14 @@ class TreeGen:
 
     def item(self):
         r = self.r
-        k = r.choice("iiubsacxEHQBlX" if r.random() < 0.5 else "iibsl")
+        k = r.choice("iiubsacxEHQBlXa" if r.random() < 0.5 else "iibsla")
         if k == "i": return "i%d" % r.choice([0, 1, -1, 42, -128, 32767, r.randint(-10**12, 10**12)])
         if k == "u": return "u%d" % r.choice([0, 7, 255, 65535, 2**64 - 1])
         if k == "b": return "b%d" % r.randint(0, 1)
         if k == "s": return "s" + hexs(bytes(r.choice(b'ab "\'c;,\n1') for _ in range(r.randint(0, 6))) if r.random() < 0.9 else b"\xe9x")
-        if k == "a": return "a" + hexs(bytes(r.randrange(256) for _ in range(r.choice([0, 1, 3, 9, 10, 12]))))
+        if k == "a":
+            if r.random() < 0.3: return "a" + hexs(r.choice([b"line1\nline2\n", b"\n", b"ok\n", b"a;b", b"1,2\n"]))
+            return "a" + hexs(bytes(r.randrange(256) for _ in range(r.choice([0, 1, 3, 9, 10, 12]))))
         if k == "c": return "c" + hexs(r.choice([b"ON", b"OFF", b"VOLT", b"MAX"]))
         if k == "x": return "x" + hexs(r.choice([b"@1,2", b"1:3", b""]))
         if k == "E": return "E" + rand_error_spec(r)
@@ -100,6 +102,11 @@ def spell(rng, name):
     b = rng.choice([b, b.upper(), b.lower(), bytes(c ^ 32 if (65 <= c <= 90 or 97 <= c <= 122) and rng.random() < 0.5 else c for c in b)])
     if suf == b"1" and rng.random() < 0.5: suf = b""
     if suf == b"" and rng.random() < 0.2 and not name.startswith(b"*"): suf = b"1"
+    x = rng.random()
+    if x < 0.04 and suf: suf = suf + b"1"                      # near-miss suffixes: 2 -> 21, 21 -> 2, 1 -> 01
+    elif x < 0.07 and len(suf) > 1: suf = suf[:-1]
+    elif x < 0.09 and suf: suf = b"0" + suf
+    elif x < 0.11: suf = rng.choice([b"2", b"11", b"21", b"0"])
     return b + suf
 
 
@@ -277,5 +284,5 @@ def parse_case(line):
 
 def coq_term(line):
     cap, sub, scripts, msgs = parse_case(line)
-    capt = "None" if cap == "v" else "(Some %s)" % cap
+    capt = "None" if cap == "v" else "(Some %s%%nat)" % cap
     return "run_tree %s %s %s" % (capt, coq_tree(sub, scripts), coq_list([coq_bytes(m) for m in msgs]))
